@@ -5,12 +5,14 @@ use crate::sup::Prop;
 pub mod adtree;
 pub mod c01;
 pub mod c02;
+pub mod c03;
 pub mod c07;
 
 pub fn make(id: &str) -> Option<Box<dyn Prop>> {
     match id {
         "C01" => Some(Box::new(c01::C01::new())),
         "C02" => Some(Box::new(c02::C02::new())),
+        "C03" => Some(Box::new(c03::C03::new())),
         "C07" => Some(Box::new(c07::C07::new())),
         _ => None,
     }
